@@ -283,6 +283,37 @@ PROPS["C13"] = dict(run=tables.combine(resqueue_model, gateway_run(["query", "wi
 TEXT["C13"] = _t("spec/ResQueue.tla (the resource's work queue: Enqueue, enqueueUnlock, lockEvents, processQueue item by item, worker channel tokens) is model-checked exhaustively: one worker at a time, FIFO, no ordinary work while query-event slots are outstanding, slots accounted, nothing stuck, every enqueued item eventually runs; every queue note of the replayed gateway schedules (taken under the entry's mutex, tag verif) is replayed through the same transitions (spec/ResQueueTrace.tla). On the query families the observer additionally checks: convergence (C01 predicate) per alias rid; per query event no second request for one normalised query, none for a query that is not cached, every still-subscribed continuously cached query asked; no numbered event handed over after the query event delivered while its requests are unanswered; lock released at quiescence, no stall.",
                  "TLC exhaustive on ResQueue.tla + per-note conformance of the real work queue (ResQueueTrace.tla) + observer rules on gateway traces")
 
+
+def subaccess_model(ctx):
+    """Exhaustive TLC run of spec/SubAccess.tla (access cache of a subscription) - repaired design passes, the design before fix 783f622 must fail."""
+    import os, shutil
+    from .common import SPEC, tlc, tlc_stats, MachineryError
+    d = os.path.join(ctx.workdir, "subaccess-mc")
+    os.makedirs(d, exist_ok=True)
+    shutil.copy(os.path.join(SPEC, "SubAccess.tla"), d)
+    req, ep = (5, 3) if ctx.tier == "quick" else (7, 4)
+    def cfg(rep):
+        with open(os.path.join(d, "SubAccess.cfg"), "w") as f:
+            f.write("SPECIFICATION Spec\nCONSTANTS\n MaxReq = %d\n MaxEpoch = %d\n Repaired = %s\n"
+                    "INVARIANTS NoStaleCache FreshOnArrival OneInFlight WaitersKnown\nPROPERTIES Decided\nCHECK_DEADLOCK FALSE\n" % (req, ep, rep))
+    cfg("TRUE")
+    p = tlc("SubAccess.tla", d, [], timeout=1800, workers=4)
+    if "No error has been found" not in p.stdout:
+        raise MachineryError("SubAccess.tla does not satisfy its own properties (model bug):\n" + p.stdout[-2000:])
+    g, dist = tlc_stats(p.stdout)
+    cfg("FALSE")
+    p2 = tlc("SubAccess.tla", d, [], timeout=1800, workers=4)
+    if "is violated" not in p2.stdout:
+        raise MachineryError("SubAccess.tla with Repaired = FALSE should violate NoStaleCache (the model lost its bite):\n" + p2.stdout[-1500:])
+    cov = dict(states=dist, transitions=g, samples=[{"model": "spec/SubAccess.tla MaxReq=%d MaxEpoch=%d Repaired=TRUE; invariants NoStaleCache FreshOnArrival OneInFlight WaitersKnown; liveness Decided; with Repaired=FALSE TLC finds NoStaleCache violated (the defect repaired by 783f622); FreshAtDecision is violated by design (KF-R)" % (req, ep)}],
+               rule="exhaustive TLC on SubAccess.tla; its transitions are replayed on every access-cache note of the gateway traces by SubAccessTrace.tla", exhaustive=False)
+    return dict(coverage=cov, violations=[], level="model_checking", assumptions=["every access request is eventually answered or times out"])
+
+
+PROPS["C05"] = dict(run=tables.combine(subaccess_model, gateway_run(["access", "win-recheck", "win-indirect"], ["mreq", "note"]), tables.tables_run(["calllist"], "CanCall")))
+TEXT["C05"] = _t("spec/SubAccess.tla (the subscription's access cache: one request in flight, waiting callers, cached answer, reaccess in epochs) is model-checked exhaustively: the cached answer was requested in the current epoch, no request is decided on an answer requested before the last reaccess that preceded it, every request is decided; the same module with Repaired = FALSE reproduces the repaired defect. Every access-cache note of the replayed gateway schedules is replayed through the same transitions (spec/SubAccessTrace.tla). The observer's access ledger requires for every forwarded call (attributed to client requests in FIFO order) a valid answer allowing the method ('*' or an exact entry), not invalidated by a processed trigger and not requested before a token change that it was handed over after; every access / call / auth request carries the connection's processed token. CanCall is checked exhaustively as a table against spec/fn/CallList.tla.",
+                 "TLC exhaustive on SubAccess.tla + per-note conformance (SubAccessTrace.tla) + access ledger on gateway traces + exhaustive CanCall table")
+
 PROPS["C19"] = dict(run=tables.combine(throttle_model, gateway_run(["thr-ref1", "thr-ref2", "thr-reset1", "thr-reset2"], ["note", "mreq"])))
 TEXT["C19"] = _t("spec/Throttle.tla is model-checked exhaustively (bound, saturation, FIFO hand-over, every added callback eventually starts under any answer order); the real Throttle is driven directly and every Add/Done validated against it; at system level the thrAdd/thrDone notes of replayed schedules with reset/reference throttles of 1 and 2 are checked against the same transition rules, the limit, and emptiness at quiescence.",
                  "TLC exhaustive on Throttle.tla + trace validation of the real Throttle (ThrottleTrace.tla) + observer rules on gateway traces")
